@@ -254,6 +254,43 @@ func TestClean(t *testing.T) {
 					return
 				}
 			}
+			if !lb.ExpectWriteError && c.Chance("bundle.oddInput", 1, 25) {
+				// inputs the writer may refuse (the unchanged tree refuses the second and panics on
+				// the first, which is outside every claimed property and counted as a refusal):
+				// whatever it does accept must come out well-formed and readable
+				b := lb.ToRepo()
+				what := "b1 bundle without a primary URL"
+				if lb.Version == "b1" && c.Bool("bundle.oddInput.noPrimary") {
+					b.PrimaryURL = nil
+				} else if len(b.Exchanges) > 0 {
+					// header names that differ only in letter case and carry the SAME value
+					what = "case-colliding header names with equal values"
+					h := b.Exchanges[c.Pick("bundle.oddInput.at", len(b.Exchanges))].Response.Header
+					h["X-Same"] = []string{"same"}
+					h[c.PickStr("bundle.oddInput.twin", "x-same", "X-SAME", "x-Same")] = []string{"same"}
+					if c.Bool("bundle.oddInput.pseudo") {
+						h[":status"] = []string{"200"}
+					}
+				} else {
+					what = "nothing"
+				}
+				c.Probe("input the writer may refuse: " + what)
+				w := c.NewWriter("disk", wp)
+				var n int64
+				var werr error
+				pi := c.Guard("Bundle.WriteTo", func() { n, werr = b.WriteTo(w) })
+				if pi == nil && werr == nil && what != "nothing" {
+					wr := written{data: core.Unwrap(w).Accepted, n: n}
+					checkWellFormed(c, wr, what)
+					if c.Oracle("C03") {
+						if _, rerr, _, _, _ := readBundle(c, wr.data, core.ReaderPlan{ErrAt: -1}); rerr != nil {
+							c.Violation("read-error", "bundle.Read", "writer accepted %s and produced a file the reader rejects: %v", what, rerr)
+						}
+					}
+				}
+				c.Outcome("nt:odd-input")
+				return
+			}
 			wr := writeBundle(c, lb.ToRepo(), wp)
 			if wr.panicI != nil {
 				c.CheckTotal("Bundle.WriteTo", 0, wr.panicI, 0)
@@ -762,7 +799,7 @@ func TestReencode(t *testing.T) {
 				return
 			}
 			secs := p.RawSections(data)
-			op := c.PickStr("reencode.op", "unknown-section", "unknown-section", "reorder", "duplicate", "drop", "identity", "unknown-wrap", "length-cancel", "alias-index", "alias-index", "foreign-known-section", "variants-axes")
+			op := c.PickStr("reencode.op", "unknown-section", "unknown-section", "reorder", "duplicate", "drop", "identity", "unknown-wrap", "length-cancel", "alias-index", "alias-index", "foreign-known-section", "variants-axes", "status-text")
 			switch op {
 			case "unknown-section":
 				pos := c.Int("reencode.pos", 0, len(secs)-1) // anywhere before "responses"
@@ -955,6 +992,25 @@ func TestReencode(t *testing.T) {
 				c.Fault("reencode-drop-section")
 			}
 			blob := refbundle.Build(p.Version, p.PrimaryURL, secs)
+			if op == "status-text" {
+				// one response's three status bytes overwritten in place by text that some number
+				// parsers accept (sign, exponent, blanks, non-ASCII digits): every offset stays valid
+				var at []int
+				for off := 0; ; {
+					i := bytes.Index(blob[off:], []byte("\x47:status\x43"))
+					if i < 0 {
+						break
+					}
+					at = append(at, off+i+9)
+					off += i + 1
+				}
+				if len(at) > 0 {
+					copy(blob[at[c.Pick("reencode.statusAt", len(at))]:], c.PickStr("reencode.statusText", "+20", "-20", "-07", "-00", "2e1", " 20", "20 ", "0x1", "2_0", "\xd9\xa20", "1.5", "\x0020"))
+					c.Fault("reencode-status-text")
+				} else {
+					op = "identity"
+				}
+			}
 			plan := c.DrawReaderPlan("disk.read", len(blob), false)
 			rb, err, pi, alloc, _ := readBundle(c, blob, plan)
 			judgeRead(c, blob, rb, err, pi, alloc, "bundle.Read/"+op)
